@@ -61,7 +61,7 @@ func families(quick bool) []family {
 	}
 	fams = append(fams,
 		family{F: txnh.Family{Name: "ns-2txn", Slots: rep(rw, 2), MaxOps: []int{ops2, ops2}, Ends: ends, Reduce: true}},
-		family{F: txnh.Family{Name: "ns-3txn", Slots: rep([]string{"get:a", "set:a", "set:b", "del:b"}, 3), MaxOps: []int{ops3, 1, 1}, Ends: []string{"commit", "commitwith"}, Reduce: true}},
+		family{F: txnh.Family{Name: "ns-3txn", Slots: rep([]string{"get:a", "set:a", "set:b", "del:b"}, 3), MaxOps: []int{ops3, ops3, 1}, Ends: []string{"commit", "commitwith"}, Reduce: true}},
 	)
 	// --- batch count limit: MaxBatchCount = 4 admits two buffered writes -------------------
 	const maxCount = 4
